@@ -1999,8 +1999,17 @@ func c04Coq(c c04Case, o c04Obs) string {
 
 // ---- histogram ---------------------------------------------------------------------------
 
+// histogram bucket of a length: 0..5, "6+" = six or more
+func c04Bucket(n int) string {
+	if n >= 6 {
+		return "6+"
+	}
+
+	return strconv.Itoa(n)
+}
+
 func c04Tags(c c04Case, o c04Obs) []string {
-	tags := []string{"status:" + o.Status, fmt.Sprintf("chain_len:%d", min(len(c.Chain), 6)), "entry:" + c.Entry,
+	tags := []string{"status:" + o.Status, "rule0_len:" + c04Bucket(len(c.Chain)), "entry:" + c.Entry,
 		fmt.Sprintf("steps:%d", len(c.Steps)), "default_rule:" + c.Default}
 
 	if o.Reruns != 0 {
@@ -2075,7 +2084,7 @@ func c04Tags(c c04Case, o c04Obs) []string {
 		}
 
 		auth, _, _ := strings.Cut(q.Auth, ":")
-		tags = append(tags, "req_auth:"+auth, fmt.Sprintf("consulted:%d", min(len(so.Seen), 6)))
+		tags = append(tags, "req_auth:"+auth, "consulted:"+c04Bucket(len(so.Seen)))
 
 		for j, s := range so.Seen {
 			k := s.Kind
